@@ -147,8 +147,8 @@ def mk_dns_name(c):
         nm = bytes(w["name"])
         caps = sorted({len(nm), len(nm) + 1, len(nm) + 2, 300} - {0}) if w["ok"] else [300, 2]
         for cap in caps:
-            out.append(("dns_name %s %d %d" % (hx, w["off"], cap), {"op": "dns_name", "shape": w["why"], "w": w, "cap": cap}))
-        out.append(("dns_name %s %d 0" % (hx, w["off"]), {"op": "dns_nlen", "shape": w["why"], "w": w}))
+            out.append(("dns_name %s %d %d" % (hx, w["off"], cap), {"op": "dns_name", "shape": w["cls"], "w": w, "cap": cap}))
+        out.append(("dns_name %s %d 0" % (hx, w["off"]), {"op": "dns_nlen", "shape": w["cls"], "w": w}))
     body = bytes(c["bytes"][12:])
     if body:
         sh = "labels-complete" if c["lbl_ok"] else "labels-cut"
@@ -157,7 +157,9 @@ def mk_dns_name(c):
     return out
 def mk_dns_msg(c):
     hx = b(c)
-    out = [("dns_msg %s %d" % (hx, ph), {"op": "dns_msg%d" % ph, "shape": c["why"], "c": c}) for ph in (0, 1, 2)]
+    out = [("dns_msg %s 0" % hx, {"op": "dns_msg0", "shape": c["why"], "c": c}),
+           ("dns_msg %s 1" % hx, {"op": "dns_msg1", "shape": c["q12"], "c": c}),
+           ("dns_msg %s 2" % hx, {"op": "dns_msg2", "shape": c["rr12"], "c": c})]
     if c["ok"]: out.append(("dns_msg %s 3" % hx, {"op": "dns_msg3", "shape": c["why"], "c": c}))
     return out
 def mk_rad(c):
@@ -281,7 +283,7 @@ def run(ctx):
     if os.environ.get("C13_DUMP"): open(os.environ["C13_DUMP"], "w").write("\n".join(lines) + "\n")
     # guard-page builds first (a fault costs microseconds there); the ASan+UBSan build then runs every case that did
     # not already fault at the end of its block (each ASan abort costs a process)
-    gmodes = [("guard", "ghi")] + ([] if ctx.quick else [("guard", "glo")])
+    gmodes = [("guard", "ghi"), ("guard", "glo")]
     results = {}
     t0 = time.time()
     for bm in gmodes:
@@ -304,12 +306,12 @@ def run(ctx):
     for i, (ln, meta) in enumerate(zip(lines, metas)):
         st = per_gen.setdefault(meta["gen"], {"cases": 0, "crashing": 0, "accepted": 0})
         st["cases"] += 1
-        crashed = False
+        crashed = any(results[bm][i][0] == "X" for bm in modes)
         for bm in modes:
             r = results[bm][i]; bname = "%s/%s" % bm
             if r[0] in ("S", "T"): continue
+            if crashed and r[0] != "X": continue      # the case is reported once, by its fault
             if r[0] == "X":
-                crashed = True
                 note("%s:%s:%s" % (r[1], r[2], meta["shape"]), ln, "build %s\ncase %s\n%s" % (bname, ln, r[3]), bname)
                 continue
             f = r[1]
@@ -340,19 +342,19 @@ def run(ctx):
         ctx.fail(key, "%d case(s), builds %s; first:\n%s" % (cnt, sorted(builds), detail), {"case": ln, "builds": sorted(builds)})
     if truncated and all(k in known for k in fails):
         raise common.Infra("ASan build: crash budget (%d) used up by registered findings only, %d cases not run" % (budget, truncated))
-    nontriv = sum(1 for m in metas if m["shape"] not in ("plain", "compressed", "fits", "struct-ok", "ok", "hdr-full"))
+    nontriv = sum(1 for m in metas if m["shape"] not in ("plain", "compressed", "fits", "struct-ok", "ok", "hdr-full", "ends:text"))
     ctx.add(evaluations=sum(1 for bm in modes for r in results[bm] if r[0] in ("R", "X")), distinct_nontrivial=nontriv, cases=len(lines),
             asan_cases_skipped_after_guard_fault=len(lines) - len(surv), asan_cases_not_run_crash_budget=truncated,
             crashing_cases=crashes, distinct_failure_keys=len(fails), dns_names_valid_but_refused=refused_valid,
-            builds=["clang -O1 ASan+UBSan exact-size heap blocks", "gcc -O1 guard page after the block"] +
-                   ([] if ctx.quick else ["gcc -O1 guard page before the block"]))
+            builds=["gcc -O1, PROT_NONE page directly after the block", "gcc -O1, PROT_NONE page directly before the block",
+                    "clang -O1 ASan+UBSan, exact-size heap blocks"])
     ctx.cov["per_generator"] = per_gen
     ctx.add(samples=[{"line": lines[i], "shape": metas[i]["shape"], "gen": metas[i]["gen"],
                       "answer": ({k: v for k, v in results[modes[0]][i][1].items() if k != "_op"} if results[modes[0]][i][0] == "R" else list(results[modes[0]][i][1:3]))}
                      for i in range(0, len(lines), max(1, len(lines) // 10))][:10])
     ctx.cov["rule"] = ("cases = reachable states of the Hp* generator specs (exhaustive over the configured item alphabets and "
                        "lengths, plus TLC -simulate traces seeded with VERIF_SEED), each rendered to bytes by the spec and run in every "
-                       "build; non-trivial = the spec classifies the packet as hostile (anything but plain/compressed/fits/struct-ok/ok/hdr-full); "
+                       "build; non-trivial = the spec classifies the packet as hostile (anything but plain/compressed/fits/struct-ok/ok/hdr-full/ends:text); "
                        "distinct by driver line (operation, bytes, arguments)")
     ctx.assumptions += [
         "the TLA+ modules specs/wire/Hp*.tla are the oracle for DNS name expansion/label sizes/section offsets/RTP spans and for the "
